@@ -40,6 +40,13 @@ Section C09.
     exists md', create (Metablock old p) (SgSslib kid pub) = Ok md' /\ verify md' key = Ok tt.
   Proof. exact (sign_verify_mb_sslib sign sig_ok now_s). Qed.
 
+  (** the hypothesis "the payload has canonical bytes" holds for everything the (strict) loader returns: constructing
+      a Link / Layout evaluates its signable_bytes (validate() enumerates the members), so an object with a float or
+      a lone surrogate anywhere cannot be constructed *)
+  Theorem C09_loaded_is_signable : forall d p, read_payload_s d = Ok p ->
+    read_payload d = Ok p /\ exists msg, signable_bytes (payload_asdict p) = Ok msg.
+  Proof. exact loaded_is_signable. Qed.
+
   (** traditional format, gpg key: [sk] is the id of the key gpg signs with — the verification key's own id or
       one of its subkeys' — and that key has not expired at [now_s] *)
   Theorem C09_roundtrip_mb_gpg : forall old p mkid sk hd key msg,
@@ -236,6 +243,8 @@ Example ex_payload_loads : read_payload_s ex_file_signed = Ok ex_payload.
 Proof. vm_compute. reflexivity. Qed.
 Example ex_msg_is_signed_bytes : signable_bytes (payload_asdict ex_payload) = Ok ex_msg /\ length ex_msg = 157%nat.
 Proof. split; vm_compute; reflexivity. Qed.
+Example ex_payload_wf : wf_json (payload_asdict ex_payload) = true.
+Proof. vm_compute. reflexivity. Qed.
 Example ex_key_ok : sslib_key_for ex_key ex_kid ex_pub.
 Proof. split; [reflexivity|]. split; [reflexivity|]. eexists. split; reflexivity. Qed.
 Example ex_key2_ok : sslib_key_for ex_key2 ex_kid ex_pub2.
@@ -330,6 +339,7 @@ Example ex_same_sequence_on_envelope_verifies :
 Proof. vm_compute. reflexivity. Qed.
 
 Print Assumptions C09_roundtrip_mb_sslib.
+Print Assumptions C09_loaded_is_signable.
 Print Assumptions C09_roundtrip_mb_gpg.
 Print Assumptions C09_roundtrip_env.
 Print Assumptions C09_env_gpg_refused.
